@@ -42,6 +42,16 @@ func CopyFile(srcPath, destPath string) (int64, error) {
 // MoveFile moves the specified file from srcPath to destPath.
 // If os.Rename() fails, try to osutil.CopyFile() and then os.Remove().
 func MoveFile(srcPath, destPath string) (err error) {
+	// Renaming a symbolic link onto the very file it points to would replace that file
+	// by a link to itself: the content would be gone and both names unusable.
+	if srcInfo, err := os.Lstat(srcPath); err == nil && srcInfo.Mode()&os.ModeSymlink != 0 {
+		if target, err := os.Stat(srcPath); err == nil {
+			if destInfo, err := os.Lstat(destPath); err == nil && os.SameFile(target, destInfo) {
+				return &os.PathError{Op: "move", Path: destPath, Err: errSameFile}
+			}
+		}
+	}
+
 	if err = os.Rename(srcPath, destPath); err == nil {
 		return nil
 	}
